@@ -300,6 +300,13 @@ func runPolicyCodec(payload []*Sx) *Sx {
 	if !ok {
 		return L(A("unrenderable"))
 	}
+	// the returned bytes belong to the caller: later renderings (of this or any other policy) must not change them
+	snapshot := string(text)
+	defer func() { _ = snapshot }()
+	_ = cedar.NewPolicyFromAST((*cedarAST)(xast.Forbid().When(xast.String("some other policy, rendered in between")))).MarshalCedar()
+	if string(text) != snapshot {
+		return problem("second-rendering-differs", snapshot, string(text))
+	}
 	var pt cedar.Policy
 	if err := pt.UnmarshalCedar(text); err != nil {
 		return problem("text-does-not-parse", string(text), err.Error())
@@ -323,8 +330,12 @@ func runPolicyCodec(payload []*Sx) *Sx {
 		return problem("text-changes-tree-no-witness", string(text), sa, st)
 	}
 	text2 := pt.MarshalCedar()
-	if !bytes.Equal(text, text2) {
-		return problem("second-rendering-differs", string(text), string(text2))
+	if string(text2) != snapshot || string(text) != snapshot {
+		return problem("second-rendering-differs", snapshot, string(text2))
+	}
+	_ = p.MarshalCedar()
+	if string(text2) != snapshot {
+		return problem("second-rendering-differs", snapshot, string(text2))
 	}
 	// JSON
 	j, err := p.MarshalJSON()
@@ -621,4 +632,41 @@ func forEachChild(n xast.IsNode, f func(xast.IsNode)) {
 			f(e)
 		}
 	}
+}
+
+func init() {
+	kinds["printpol"] = runPrintPol
+	kinds["runeinfo"] = runRuneInfo
+}
+
+// printpol: <policy> [ignored...] -> (text bytes) | (unrenderable)
+func runPrintPol(payload []*Sx) *Sx {
+	_, a := policyFromSx(payload[0])
+	p := cedar.NewPolicyFromAST((*cedarAST)(a))
+	c, ok := safeBytes(p.MarshalCedar)
+	if !ok {
+		return L(A("unrenderable"))
+	}
+	return L(A("text"), AS(string(c)))
+}
+
+// runeinfo: (runes r...) -> ((r printable gext)...): the escaper's Unicode tables observed through types.String.MarshalCedar
+// (a continuation character is written raw iff printable; a first character is additionally escaped iff grapheme-extend)
+func runRuneInfo(payload []*Sx) *Sx {
+	out := L()
+	for _, x := range payload[0].List[1:] {
+		r := rune(mustInt64(x.Atom))
+		cont := string(types.String("a" + string(r)).MarshalCedar())
+		first := string(types.String(string(r)).MarshalCedar())
+		printable := cont == "\"a"+string(r)+"\""
+		gext := printable && first != "\""+string(r)+"\""
+		b := func(v bool) *Sx {
+			if v {
+				return A("1")
+			}
+			return A("0")
+		}
+		out.List = append(out.List, L(AI(int(r)), b(printable), b(gext)))
+	}
+	return out
 }
